@@ -15,21 +15,55 @@ P_seq = C.POINTER(seq_t)
 P_idx = C.POINTER(idx_t)
 
 
-class DTWSettings(C.Structure):
-    _fields_ = [("window", idx_t), ("max_dist", seq_t), ("max_step", seq_t), ("max_length_diff", idx_t),
-                ("penalty", seq_t), ("psi_1b", idx_t), ("psi_1e", idx_t), ("psi_2b", idx_t), ("psi_2e", idx_t),
-                ("use_pruning", C.c_bool), ("only_ub", C.c_bool), ("inner_dist", C.c_int),
-                ("window_type", C.c_int)]
+_FALLBACK = {
+    "DTWSettings": [("window", idx_t), ("max_dist", seq_t), ("max_step", seq_t), ("max_length_diff", idx_t),
+                    ("penalty", seq_t), ("psi_1b", idx_t), ("psi_1e", idx_t), ("psi_2b", idx_t), ("psi_2e", idx_t),
+                    ("use_pruning", C.c_bool), ("only_ub", C.c_bool), ("inner_dist", C.c_int),
+                    ("window_type", C.c_int)],
+    "DTWBlock": [("rb", idx_t), ("re", idx_t), ("cb", idx_t), ("ce", idx_t), ("triu", C.c_bool)],
+    "DTWWps": [("ldiff", idx_t), ("ldiffr", idx_t), ("ldiffc", idx_t), ("window", idx_t), ("width", idx_t),
+               ("length", idx_t), ("ri1", idx_t), ("ri2", idx_t), ("ri3", idx_t), ("overlap_left_ri", idx_t),
+               ("overlap_right_ri", idx_t), ("max_step", seq_t), ("max_dist", seq_t), ("penalty", seq_t)],
+}
+_CTYPES = {"idx_t": idx_t, "ssize_t": idx_t, "seq_t": seq_t, "double": C.c_double, "float": C.c_float,
+           "bool": C.c_bool, "int": C.c_int, "unsigned int": C.c_uint, "long": C.c_long, "size_t": C.c_size_t,
+           "char": C.c_char, "unsigned char": C.c_ubyte, "ba_t": C.c_ubyte}
 
 
-class DTWBlock(C.Structure):
-    _fields_ = [("rb", idx_t), ("re", idx_t), ("cb", idx_t), ("ce", idx_t), ("triu", C.c_bool)]
+def _struct_fields(name):
+    """Field layout of `struct <name>_s` read from /repo's dd_dtw.h, so that a field added to a settings
+    structure does not silently shift the layout used by the ctypes calls.  Falls back to the layout of the
+    pinned commit when the header cannot be read."""
+    import re
+    try:
+        from . import build
+        text = open(os.path.join(build.REPO, build.CDIR, "dd_dtw.h")).read()
+        text = re.sub(r"/\*.*?\*/", " ", text, flags=re.S)
+        text = re.sub(r"//[^\n]*", "", text)
+        m = re.search(r"struct\s+%s_s\s*\{(.*?)\}\s*;" % name, text, re.S)
+        if not m:
+            return _FALLBACK[name]
+        fields = []
+        for decl in m.group(1).split(";"):
+            decl = decl.strip()
+            if not decl:
+                continue
+            dm = re.match(r"^((?:unsigned\s+)?\w+)\s+(\w+(?:\s*,\s*\w+)*)$", decl)
+            if not dm or dm.group(1) not in _CTYPES:
+                return _FALLBACK[name]
+            for fld in dm.group(2).split(","):
+                fields.append((fld.strip(), _CTYPES[dm.group(1)]))
+        have = {f for f, _t in fields}
+        if not {f for f, _t in _FALLBACK[name]} <= have:
+            return _FALLBACK[name]            # a field the harness sets by name is gone: keep the pinned layout
+        return fields
+    except Exception:
+        return _FALLBACK[name]
 
 
-class DTWWps(C.Structure):
-    _fields_ = [("ldiff", idx_t), ("ldiffr", idx_t), ("ldiffc", idx_t), ("window", idx_t), ("width", idx_t),
-                ("length", idx_t), ("ri1", idx_t), ("ri2", idx_t), ("ri3", idx_t), ("overlap_left_ri", idx_t),
-                ("overlap_right_ri", idx_t), ("max_step", seq_t), ("max_dist", seq_t), ("penalty", seq_t)]
+DTWSettings = type("DTWSettings", (C.Structure,), {"_fields_": _struct_fields("DTWSettings")})
+DTWBlock = type("DTWBlock", (C.Structure,), {"_fields_": _struct_fields("DTWBlock")})
+DTWWps = type("DTWWps", (C.Structure,), {"_fields_": _struct_fields("DTWWps")})
 
 
 CANARY = -7.777e77
